@@ -1129,8 +1129,8 @@ func compareMD(res *mon.Result, via string, c *schemaCase, e mdExp, md *schema.M
 				got = "rule [" + ru.Name + "] " + ru.Pattern
 			}
 		}
-		res.Violate("metricdata-interval:"+taggedness(e.tagged)+":"+c.Rules[e.rule].Kind+":"+via,
-			fmt.Sprintf("line %q presented as %q: Interval %d (%s), expected %d from rule [%s] %s", e.Line, e.pres, md.Interval, got, e.interval, c.Rules[e.rule].Name, c.Rules[e.rule].Pattern), w())
+		res.Violate("metricdata-interval:"+taggedness(e.tagged)+":"+via,
+			fmt.Sprintf("line %q presented as %q: Interval %d (%s), expected %d from rule [%s] %s (%s)", e.Line, e.pres, md.Interval, got, e.interval, c.Rules[e.rule].Name, c.Rules[e.rule].Pattern, c.Rules[e.rule].Kind), w())
 	}
 }
 
@@ -1412,6 +1412,39 @@ func main() {
 		pprof.StartCPUProfile(f)
 		defer pprof.StopCPUProfile()
 	}
+	// --replay FILE: re-run the batch / schemas case a violation was witnessed on (same seed and tier)
+	replayWhere, replayN := "", -1
+	if rp := os.Getenv("VERIF_REPLAY"); rp != "" {
+		var rf struct {
+			Seed   uint64 `json:"seed"`
+			Tier   string `json:"tier"`
+			Replay struct {
+				Where string `json:"where"`
+				Route *int   `json:"route"`
+				Batch *int   `json:"batch"`
+				Case  *int   `json:"case"`
+			} `json:"replay"`
+		}
+		b, err := os.ReadFile(rp)
+		if err != nil || json.Unmarshal(b, &rf) != nil {
+			fmt.Fprintln(os.Stderr, "C16: cannot use replay file", rp)
+			os.Exit(2)
+		}
+		os.Setenv("VERIF_SEED", strconv.FormatUint(rf.Seed, 10))
+		os.Setenv("VERIF_TIER", rf.Tier)
+		switch {
+		case rf.Replay.Case != nil:
+			replayWhere, replayN = "case", *rf.Replay.Case
+		case rf.Replay.Where == "destination" && rf.Replay.Route != nil:
+			replayWhere, replayN = "destination", *rf.Replay.Route
+		case rf.Replay.Where == "direct" && rf.Replay.Batch != nil:
+			replayWhere, replayN = "direct", *rf.Replay.Batch
+		default:
+			fmt.Fprintln(os.Stderr, "C16: replay file names no case / route / batch", rp)
+			os.Exit(2)
+		}
+	}
+	skip := func(where string, n int) bool { return replayWhere != "" && (replayWhere != where || replayN != n) }
 	res := mon.NewResult("C16")
 	mon.InitRepo()
 	res.Rule = "(1) lines '<unique id>.<path>[;tags] <value> <timestamp>' generated from (seed, index): every float spelling (ints, decimals, exponents, leading/trailing dot, +, inf, nan, 17-40 digit numbers, subnormals, hex floats), timestamps 0..2^32-1 incl. boundaries and leading zeros, plus lines that cannot be represented (timestamp with fraction / negative / > 2^32-1 / text, non-numeric value, 2 or 4 fields), through a real pickle-mode destination and through ParseDataPoint+Pickle; (2) storage-schemas cases: 1-8 rules derived from the series of the case (exact, ^prefix, suffix$, unanchored, tag-suffix$, sorted-tag-pair, alternation, class) + catch-all, priorities, 1-3 retentions in old and new syntax, 200 lines per case (tags shuffled, 40% tagged series, invalid tags / timestamps mixed in). non-trivial = a pickle batch whose frames were decoded by CPython, or a schemas case in which a line was matched by >= 2 non-default rules and tagged lines occurred; distinct = batches + cases"
@@ -1432,7 +1465,7 @@ func main() {
 	nBatches := mon.N(2, 8)
 	perBatch := mon.N(600, 1000)
 	for ri := 0; ri < nRoutes; ri++ {
-		if !mon.Mine(ri) {
+		if !mon.Mine(ri) || skip("destination", ri) {
 			continue
 		}
 		pickleDestination(res, tbl, py, ri, nBatches, perBatch, pst)
@@ -1442,7 +1475,7 @@ func main() {
 	nDirect := mon.N(6, 200)
 	perDirect := mon.N(2000, 2000)
 	for i := 0; i < nDirect; i++ {
-		if !mon.Mine(i) {
+		if !mon.Mine(i) || skip("direct", i) {
 			continue
 		}
 		pickleDirect(res, py, i, perDirect, pst)
@@ -1476,13 +1509,13 @@ func main() {
 		go func() {
 			defer wg.Done()
 			for idx := range jobs {
-				schemaCaseRun(res, tbl, g, aggFile, idx, nLines, idx%bbEvery == 0, mst)
+				schemaCaseRun(res, tbl, g, aggFile, idx, nLines, idx%bbEvery == 0 || replayWhere == "case", mst)
 			}
 		}()
 	}
 	nMine := 0
 	for i := 0; i < nCases; i++ {
-		if mon.Mine(i) {
+		if mon.Mine(i) && !skip("case", i) {
 			jobs <- i
 			nMine++
 		}
@@ -1504,6 +1537,10 @@ func main() {
 		}
 	}
 	res.Set("deciding_rule_kinds", kinds)
+	if replayWhere != "" {
+		res.Write()
+		return
+	}
 	res.Floor("pickle_frames_decoded_by_cpython", pst.frames, mon.N(8000, 300000))
 	res.Floor("pickle_lines_unrepresentable", pst.skipped, mon.N(1500, 30000))
 	res.Floor("md_compared_whitebox", mst.m["md_compared_whitebox"], mon.N(20000, 800000))
